@@ -127,6 +127,8 @@ ALIAS_CALLEES = {
     "std::ops::Deref::deref": 0,
     "std::ops::DerefMut::deref_mut": 0,
     "std::sync::Arc::<T>::new": 0,
+    "std::sync::Arc::<T, A>::downgrade": 0,
+    "std::sync::Weak::<T, A>::upgrade": 0,     # an Option of the same object; the Some-test / expect is seen separately
     "std::boxed::Box::<T>::new": 0,
     "std::convert::Into::into": 0,
     "std::option::Option::<T>::as_ref": 0,
@@ -544,6 +546,9 @@ def classify_call(prog, body, bid, blk):
         if msg[0] == "agg" and msg[1] == "adt" and msg[2].startswith("Message::"):
             variant = msg[2].split("::")[1]
             payload = msg[3][0] if msg[3] else None
+            # a handler reached through an Option that was just seen to be Some (Weak::upgrade) is still that handler
+            while payload is not None and payload[0] == "someof" and payload[1][0] == "agg" and payload[1][1] == "closure":
+                payload = payload[1]
         elif msg[0] == "param":
             variant = "INCOMING"
             payload = msg
@@ -750,6 +755,8 @@ def region_is_tau(prog, body, region):
         e = body.effects.get(b)
         if e is not None and effect_visible(prog, e) and not e.tracing:
             return False
+        if e is not None and not e.tracing and e.kind in ("usertrait", "iternext", "usercall", "hocall"):
+            return False      # user code evaluated inside a tracing-internal branch is not tau
         for (bb, i), se in body.stmt_effects.items():
             if bb == b and not se.tracing:
                 return False
